@@ -122,6 +122,7 @@ def check_case(ctx: Ctx, case: dict):
         g.states = {n: (None, "") for n in rm.states}
         g.params = {n: (None, "") for n in rm.params}
         points = gen.gen_inputs(rng, g, ctx.n(5, 8))
+        points = points + oracle.boundary_points(rm, points[0], limit=4)
     hp_mod = None
     for pi, pt in enumerate(points):
         us = rm.usable(pt, seed=ctx.seed * 1000 + pi)
